@@ -41,14 +41,21 @@ def plan(tier, seed):
 
 
 class View:
-    def __init__(self, view, dt, factor, descs, bitdefs, limits=None):
+    def __init__(self, view, dt, factor, descs, bitdefs, limits=None, member=None):
         import canopen
         self.view, self.dt = view, dt
-        idx = gen.TYPE_INDEX_BASE + dt
+        idx = gen.TYPE_INDEX_BASE + dt if member is None else 0x2200
+        self.sub = member or 0
+        self.idx = idx
 
         def od():
             d = gen.typed_od(rpdos=(), tpdos=(1,))
-            v = d[idx]
+            if member is not None:
+                # an array described by its first member only (the way an EDS with CompactSubObj does): the other members are
+                # generated from that template and are the same kind of object - scaling, descriptions and bit names included
+                d.add_object(gen.record("Scaled array", 0x2200, [gen.variable("Number of entries", 0x2200, 0, R.UNSIGNED8, "const", default=8),
+                                                                 gen.variable("Channel", 0x2200, 1, dt)], array=True))
+            v = d[idx] if member is None else d[idx][1]
             v.factor = factor
             if limits:
                 v.min, v.max = limits          # LowLimit / HighLimit: raw units, like everything an EDS says about the object
@@ -65,26 +72,30 @@ class View:
             filler = R.UNSIGNED8 if dt != R.UNSIGNED8 else R.UNSIGNED16
             if R.INTEGERS[dt] <= 48:
                 self.map.add_variable(gen.TYPE_INDEX_BASE + filler, 0)
-            self.var = self.map.add_variable(idx, 0)
+            self.var = self.map.add_variable(idx, self.sub)
             self.off = self.var.offset // 8
         else:
             self.rig = rigs.PairRig(od, node_ids=(3,))
             self.local = self.rig.local
-            self.var = self.local.sdo[idx] if view == "local" else self.rig.node.sdo[idx]
+            self.var = self._pick(self.local.sdo if view == "local" else self.rig.node.sdo)
         self.idx = idx
+
+    def _pick(self, sdo):
+        entry = sdo[self.idx]
+        return entry[self.sub] if self.sub else entry
 
     def accessor(self):
         """A fresh accessor object, like user code obtains it."""
         if self.view == "pdo":
             return self.var
-        return self.local.sdo[self.idx] if self.view == "local" else self.rig.node.sdo[self.idx]
+        return self._pick(self.local.sdo if self.view == "local" else self.rig.node.sdo)
 
     def stored_raw(self):
         w = R.INTEGERS[self.dt] // 8
         if self.view == "pdo":
             b = bytes(self.map.data[self.off:self.off + w])
         else:
-            b = self.local.data_store[self.idx][0]
+            b = self.local.data_store[self.idx][self.sub]
         return R.decode(self.dt, b)
 
     def close(self):
@@ -132,8 +143,9 @@ def run_one(ctx, desc):
         bitdefs[f"field{i}"] = list(range(a, b))
         if i % 2:
             bitdefs[f"field{i}"].reverse()          # a definition entered most significant bit first
-    v = View(view, dt, factor, descs, bitdefs, limits)
-    case0 = {"view": view, "type": name, "factor": factor, "limits": limits}
+    member = rng.choice([2, 3, 8]) if (desc["cs"] // 3) % 2 == 1 else None
+    v = View(view, dt, factor, descs, bitdefs, limits, member)
+    case0 = {"view": view, "type": name, "factor": factor, "limits": limits, "array_member": member}
     plo, phi = limits if limits else (lo, hi)
     try:
         # ---- physical values
